@@ -1,4 +1,812 @@
-//! C11 — not built yet.
+//! C11 — graph-building API keeps contexts well-formed; failed calls have no effect.
+//! Histories of random API calls over one or two contexts are executed on /repo's real code; after
+//! every call the public getters (and the serialized context, for the graphs' finalized flags) are
+//! read and printed as a Gallina literal.  One correspondence case per (history, context): the
+//! model `trace` over the same call list must give the same per-step (outcome, observation) list.
+//! Native oracle, after every call: an Err leaves the receiver context's observation unchanged,
+//! the other context is never touched, and the well-formedness invariants hold on the Rust side.
+use crate::coqfmt::coq_string;
 use crate::out::Out;
-pub const HEADER: &str = "From CC Require Import Base.Prelude.";
-pub fn run(_tier: &str, _seed: u64, _out: &mut Out) {}
+use crate::rng::Rng;
+use ciphercore_base::data_types::*;
+use ciphercore_base::data_values::Value;
+use ciphercore_base::graphs::{create_context, Context, Graph, GraphAnnotation, Node, NodeAnnotation, Operation};
+use serde_json::json;
+use std::collections::HashSet;
+
+pub const HEADER: &str = "From CC Require Import Base.Prelude Model.Api.";
+
+pub const POOL: [&str; 4] = ["a", "b", "out", "x y"];
+
+/// Interning tables: operations and types are opaque tags in the model.
+pub struct Tags {
+    pub ops: Vec<Operation>,
+    pub tys: Vec<Type>,
+}
+impl Tags {
+    pub fn new() -> Self {
+        Tags { ops: vec![], tys: vec![] }
+    }
+    pub fn op(&mut self, o: &Operation) -> usize {
+        if let Some(i) = self.ops.iter().position(|x| x == o) {
+            return i;
+        }
+        self.ops.push(o.clone());
+        self.ops.len() - 1
+    }
+    pub fn ty(&mut self, t: &Type) -> usize {
+        if let Some(i) = self.tys.iter().position(|x| x == t) {
+            return i;
+        }
+        self.tys.push(t.clone());
+        self.tys.len() - 1
+    }
+}
+
+/// Independent port of data_types.rs:1246 get_size_estimation_in_bits (private in /repo).
+pub fn size_estimate(t: &Type) -> Option<u64> {
+    if !t.is_valid() {
+        return None;
+    }
+    let r: u64 = match t {
+        Type::Scalar(st) => st.size_in_bits(),
+        Type::Array(s, st) => {
+            let mut pr: u64 = 1;
+            for x in s {
+                pr = pr.checked_mul(*x)?;
+            }
+            st.size_in_bits().checked_mul(pr.checked_add(1)?)?
+        }
+        Type::Vector(len, et) => len.checked_add(1)?.checked_mul(size_estimate(et)?)?,
+        Type::Tuple(ts) => {
+            let mut tot: u64 = 0;
+            for e in ts {
+                tot = tot.checked_add(size_estimate(e)?)?;
+            }
+            tot
+        }
+        Type::NamedTuple(fs) => {
+            let mut tot: u64 = 0;
+            for (_, e) in fs {
+                tot = tot.checked_add(size_estimate(e)?)?;
+            }
+            tot
+        }
+    };
+    r.checked_add(1)
+}
+
+pub fn node_annot_code(a: &NodeAnnotation) -> u64 {
+    match a {
+        NodeAnnotation::AssociativeOperation => 1,
+        NodeAnnotation::Private => 2,
+        NodeAnnotation::Send(s, r) => 100 + 10 * s + r,
+        NodeAnnotation::PRFMultiplication => 3,
+        NodeAnnotation::PRFB2A => 4,
+        NodeAnnotation::PRFTruncate => 5,
+        NodeAnnotation::MpcCall => 6,
+    }
+}
+pub fn graph_annot_code(a: &GraphAnnotation) -> u64 {
+    match a {
+        GraphAnnotation::AssociativeOperation => 1,
+        GraphAnnotation::OneBitState => 2,
+        GraphAnnotation::SmallState => 3,
+    }
+}
+fn random_node_annot(rng: &mut Rng) -> NodeAnnotation {
+    match rng.below(7) {
+        0 => NodeAnnotation::AssociativeOperation,
+        1 => NodeAnnotation::Private,
+        2 => NodeAnnotation::Send(rng.below(3), rng.below(3)),
+        3 => NodeAnnotation::PRFMultiplication,
+        4 => NodeAnnotation::PRFB2A,
+        5 => NodeAnnotation::PRFTruncate,
+        _ => NodeAnnotation::MpcCall,
+    }
+}
+fn random_graph_annot(rng: &mut Rng) -> GraphAnnotation {
+    match rng.below(3) {
+        0 => GraphAnnotation::AssociativeOperation,
+        1 => GraphAnnotation::OneBitState,
+        _ => GraphAnnotation::SmallState,
+    }
+}
+
+fn opt<T, F: Fn(&T) -> String>(o: &Option<T>, f: F) -> String {
+    match o {
+        Some(x) => format!("(Some {})", f(x)),
+        None => "None".to_string(),
+    }
+}
+fn lst<T, F: Fn(&T) -> String>(xs: &[T], f: F) -> String {
+    let v: Vec<String> = xs.iter().map(f).collect();
+    format!("[{}]", v.join("; "))
+}
+fn b(x: bool) -> &'static str {
+    if x {
+        "true"
+    } else {
+        "false"
+    }
+}
+
+/// Observation of one context through its public interface, as the Gallina value of
+/// `observe POOL s` (Model/Api.v).  `orphans`: nodes left behind by a failed insertion, whose type
+/// the harness does not ask for (asking would make the lazy type checker infer and cache one).
+/// Observation split as (context-level head, per-graph observations, context-level retrievals).
+#[derive(Clone, PartialEq)]
+pub struct Obs {
+    pub head: String,
+    pub graphs: Vec<String>,
+    pub tail: String,
+}
+impl Obs {
+    /// the Gallina value of `observe POOL s`
+    pub fn full(&self) -> String {
+        format!("({}, [{}], {})", self.head, self.graphs.join("; "), self.tail)
+    }
+    /// the Gallina value of `delta prev cur`: unchanged graphs are printed as None
+    pub fn delta(&self, prev: &Obs) -> String {
+        let gs: Vec<String> = self.graphs.iter().enumerate().map(|(i, g)| if prev.graphs.get(i) == Some(g) { "None".to_string() } else { format!("(Some {})", g) }).collect();
+        format!("({}, [{}], {})", self.head, gs.join("; "), self.tail)
+    }
+}
+pub fn observe_ctx(ctx: &Context, tags: &mut Tags, orphans: &HashSet<(u64, u64)>, pool: &[&str]) -> Obs {
+    // finalized flags of the graphs are only visible in the serialized form
+    let text = serde_json::to_string(ctx).unwrap();
+    let env: serde_json::Value = serde_json::from_str(&text).unwrap();
+    let inner: serde_json::Value = serde_json::from_str(env["data"].as_str().unwrap()).unwrap();
+    let ctx_fin = ctx.check_finalized().is_ok();
+    assert_eq!(inner["finalized"].as_bool().unwrap(), ctx_fin);
+    let main = ctx.get_main_graph().ok().map(|g| g.get_id());
+    let graphs = ctx.get_graphs();
+    let mut gs = vec![];
+    for (gi, g) in graphs.iter().enumerate() {
+        let fin = inner["graphs"][gi]["finalized"].as_bool().unwrap();
+        let out = g.get_output_node().ok().map(|n| n.get_id());
+        let mut ns = vec![];
+        for n in g.get_nodes() {
+            let deps = n.get_node_dependencies();
+            let gdeps = n.get_graph_dependencies();
+            let same = deps.iter().all(|d| d.get_graph() == *g);
+            let own = gdeps.iter().all(|d| d.get_context() == *ctx);
+            let name = n.get_name().unwrap();
+            let ann: Vec<u64> = n.get_annotations().unwrap().iter().map(node_annot_code).collect();
+            let ty = if orphans.contains(&(g.get_id(), n.get_id())) { None } else { n.get_type().ok().map(|t| tags.ty(&t)) };
+            ns.push(format!(
+                "({}, {}, {}, ({}, {}, {}), ({}, {}, {}))",
+                n.get_id(),
+                tags.op(&n.get_operation()),
+                lst(&deps, |d| d.get_id().to_string()),
+                b(same),
+                lst(&gdeps, |d| d.get_id().to_string()),
+                b(own),
+                opt(&name, |s| coq_string(s)),
+                lst(&ann, |a| a.to_string()),
+                opt(&ty, |t| t.to_string())
+            ));
+        }
+        let gname = g.get_name().ok();
+        let gann: Vec<u64> = g.get_annotations().unwrap().iter().map(graph_annot_code).collect();
+        let retr: Vec<Option<u64>> = pool.iter().map(|nm| ctx.retrieve_node(g.clone(), nm).ok().map(|n| n.get_id())).collect();
+        gs.push(format!(
+            "({}, {}, {}, [{}], ({}, {}, {}))",
+            g.get_id(),
+            b(fin),
+            opt(&out, |x| x.to_string()),
+            ns.join("; "),
+            opt(&gname, |s| coq_string(s)),
+            lst(&gann, |a| a.to_string()),
+            lst(&retr, |o| opt(o, |x| x.to_string()))
+        ));
+    }
+    let retr: Vec<Option<u64>> = pool.iter().map(|nm| ctx.retrieve_graph(nm).ok().map(|g| g.get_id())).collect();
+    Obs { head: format!("{}, {}", b(ctx_fin), opt(&main, |x| x.to_string())), graphs: gs, tail: lst(&retr, |o| opt(o, |x| x.to_string())) }
+}
+
+/// The well-formedness invariants, stated natively on the Rust objects.
+pub fn check_invariants(ctx: &Context, orphans: &HashSet<(u64, u64)>) -> std::result::Result<(), String> {
+    let graphs = ctx.get_graphs();
+    if ctx.get_num_graphs() as usize != graphs.len() {
+        return Err("get_num_graphs".into());
+    }
+    let ctx_fin = ctx.check_finalized().is_ok();
+    if let Ok(m) = ctx.get_main_graph() {
+        if m.get_context() != *ctx || graphs.get(m.get_id() as usize) != Some(&m) {
+            return Err("main graph not a graph of this context".into());
+        }
+    } else if ctx_fin {
+        return Err("finalized context without main graph".into());
+    }
+    for (gi, g) in graphs.iter().enumerate() {
+        if g.get_id() != gi as u64 || g.get_context() != *ctx {
+            return Err(format!("graph id {} at position {}", g.get_id(), gi));
+        }
+        let nodes = g.get_nodes();
+        if g.get_num_nodes() as usize != nodes.len() {
+            return Err("get_num_nodes".into());
+        }
+        for (ni, n) in nodes.iter().enumerate() {
+            if n.get_id() != ni as u64 || n.get_graph() != *g {
+                return Err(format!("node id {} at position {} of graph {}", n.get_id(), ni, gi));
+            }
+            if n.get_global_id() != (gi as u64, ni as u64) {
+                return Err("global id".into());
+            }
+            for d in n.get_node_dependencies() {
+                if d.get_graph() != *g || d.get_id() >= n.get_id() || nodes[d.get_id() as usize] != d {
+                    return Err(format!("dependency of node ({},{}) does not precede it in the same graph", gi, ni));
+                }
+            }
+            for d in n.get_graph_dependencies() {
+                if d.get_context() != *ctx || d.get_id() >= g.get_id() || graphs[d.get_id() as usize] != d {
+                    return Err(format!("graph dependency of node ({},{}) is not an older graph of the context", gi, ni));
+                }
+                // finalized: a finalized graph has an output and rejects new nodes
+                if d.get_output_node().is_err() {
+                    return Err("called graph has no output".into());
+                }
+            }
+            if let Some(name) = n.get_name().map_err(|e| e.to_string())? {
+                match g.retrieve_node(&name) {
+                    Ok(m) if m == *n => {}
+                    _ => return Err(format!("name {:?} of node ({},{}) does not resolve back", name, gi, ni)),
+                }
+            }
+            if !orphans.contains(&(gi as u64, ni as u64)) {
+                match n.get_type() {
+                    Ok(t) if t.is_valid() => {}
+                    _ => return Err(format!("node ({},{}) has no valid type", gi, ni)),
+                }
+            }
+        }
+        if let Ok(o) = g.get_output_node() {
+            if o.get_graph() != *g || nodes.get(o.get_id() as usize) != Some(&o) {
+                return Err("output node not in graph".into());
+            }
+        }
+        if let Ok(name) = g.get_name() {
+            match ctx.retrieve_graph(&name) {
+                Ok(h) if h == *g => {}
+                _ => return Err(format!("graph name {:?} does not resolve back", name)),
+            }
+        }
+    }
+    Ok(())
+}
+
+#[derive(Clone)]
+struct NodeH {
+    node: Node,
+    c: usize,
+}
+#[derive(Clone)]
+struct GraphH {
+    graph: Graph,
+    c: usize,
+}
+
+struct World {
+    ctxs: Vec<Context>,
+    orphans: Vec<HashSet<(u64, u64)>>,
+}
+
+fn nh(h: &NodeH, recv: usize) -> String {
+    format!("(NH {} {} {})", if h.c == recv { 0 } else { 1 }, h.node.get_graph().get_id(), h.node.get_id())
+}
+fn gh(h: &GraphH, recv: usize) -> String {
+    format!("(GH {} {})", if h.c == recv { 0 } else { 1 }, h.graph.get_id())
+}
+
+fn small_types() -> Vec<Type> {
+    vec![
+        scalar_type(INT32),
+        scalar_type(BIT),
+        array_type(vec![2], INT32),
+        array_type(vec![3], INT32),
+        array_type(vec![2, 3], UINT64),
+        array_type(vec![4], BIT),
+        tuple_type(vec![scalar_type(INT32), array_type(vec![2], BIT)]),
+        scalar_type(UINT128),
+    ]
+}
+fn huge_types() -> Vec<Type> {
+    vec![
+        array_type(vec![1u64 << 57], UINT64),                 // 2^63 + 65 bits: fits once, not twice
+        array_type(vec![1u64 << 56, 3], UINT64),              // ~1.5 * 2^63
+        array_type(vec![1u64 << 62], UINT64),                 // size estimation overflows
+        array_type(vec![1u64 << 32, 1u64 << 31], UINT128),    // overflows
+        vector_type(u64::MAX, scalar_type(BIT)),              // length + 1 overflows
+        tuple_type(vec![array_type(vec![1u64 << 57], UINT64), array_type(vec![1u64 << 57], UINT64)]),
+    ]
+}
+fn invalid_types() -> Vec<Type> {
+    vec![
+        array_type(vec![0], INT32),
+        array_type(vec![], INT32),
+        array_type(vec![u64::MAX, 2], BIT),
+        named_tuple_type(vec![("a".into(), scalar_type(BIT)), ("a".into(), scalar_type(BIT))]),
+        tuple_type(vec![array_type(vec![2, 0], BIT)]),
+    ]
+}
+
+pub fn classify(kind: &str, msg: &str) -> u64 {
+    let has = |s: &str| msg.contains(s);
+    match kind {
+        "create_graph" => 1,
+        "add_node" => {
+            if has("Can't add a node to a finalized graph") { 10 }
+            else if has("invalid node dependencies") { 11 }
+            else if has("not finilized graph dependency") || has("graph dependency with bigger id") || has("graph dependency from different context") { 12 }
+            else if has("Trying to add a node with invalid size") { 14 }
+            else if has("larger than MAX_INDIVIDUAL_NODE_SIZE") { 15 }
+            else if has("Node with an invalid type") || has("exceeds MAX_TOTAL_SIZE_NODES") { 16 }
+            else if has("Can't unregister a node") { 17 }
+            else if has("Trying to register invalid type") { 18 }
+            else { 13 }
+        }
+        "set_output" => if has("already set") { 20 } else if has("same graph") { 21 } else { 0 },
+        "finalize_graph" => 25,
+        "set_main" => if has("already set") { 30 } else if has("wrong context") { 31 } else if has("not finalized") { 32 } else { 0 },
+        "finalize_ctx" => if has("Graph is not finalized") { 35 } else if has("without the main graph") { 36 } else { 0 },
+        "set_graph_name" => if has("different context") { 40 } else if has("finalized context") { 41 } else if has("twice") { 42 } else if has("unique") { 43 } else { 0 },
+        "set_node_name" => if has("different context") { 45 } else if has("finalized context") { 46 } else if has("twice") { 47 } else if has("unique") { 48 } else { 0 },
+        "node_annot" => if has("different context") { 50 } else if has("finalized context") { 51 } else { 0 },
+        "graph_annot" => if has("different context") { 55 } else if has("finalized context") { 56 } else { 0 },
+        "get_graph_name" => if has("different context") { 60 } else if has("does not have a name") { 61 } else { 0 },
+        "get_node_name" => if has("different context") { 60 } else { 0 },
+        "retrieve_graph" => 64,
+        "retrieve_node" => if has("different context") { 60 } else { 64 },
+        _ => 0,
+    }
+}
+
+struct History {
+    rng: Rng,
+    w: World,
+    graphs: Vec<GraphH>,
+    nodes: Vec<NodeH>,
+    calls: Vec<Vec<String>>,   // per context: Gallina call terms
+    steps: Vec<Vec<String>>,   // per context: Gallina (outcome, observation) terms
+    last_obs: Vec<Obs>,
+    rejected: usize,
+    viol: Vec<(String, String)>,
+    closing_at: Option<usize>, // from this step on the generator works towards a finalized context
+    no_supplied: bool,         // never call add_node_with_type (C12: stored types must be the inferred ones)
+    finalized: HashSet<(usize, u64)>,
+}
+
+impl History {
+    fn pick_node(&mut self, prefer_c: usize, prefer_g: Option<u64>, valid: bool) -> Option<NodeH> {
+        if self.nodes.is_empty() {
+            return None;
+        }
+        if valid {
+            let c: Vec<&NodeH> = self.nodes.iter().filter(|h| h.c == prefer_c && prefer_g.map_or(true, |g| h.node.get_graph().get_id() == g)).collect();
+            if !c.is_empty() {
+                let i = self.rng.below(c.len() as u64) as usize;
+                return Some(c[i].clone());
+            }
+            None
+        } else {
+            let i = self.rng.below(self.nodes.len() as u64) as usize;
+            Some(self.nodes[i].clone())
+        }
+    }
+    fn pick_graph(&mut self, prefer_c: usize, valid: bool) -> Option<GraphH> {
+        let c: Vec<&GraphH> = self.graphs.iter().filter(|h| !valid || h.c == prefer_c).collect();
+        if c.is_empty() {
+            return None;
+        }
+        let i = self.rng.below(c.len() as u64) as usize;
+        Some(c[i].clone())
+    }
+    fn name(&mut self) -> String {
+        if self.rng.chance(1, 6) {
+            format!("n{}", self.rng.below(1000))
+        } else {
+            POOL[self.rng.below(POOL.len() as u64) as usize].to_string()
+        }
+    }
+}
+
+fn outcome_unit(kind: &str, r: &ciphercore_base::errors::Result<()>) -> (String, bool) {
+    match r {
+        Ok(()) => ("(OOk RUnit)".to_string(), true),
+        Err(e) => (format!("(OErr {})", classify(kind, &e.to_string())), false),
+    }
+}
+
+/// One random history.  Returns the per-context (lhs, rhs) pairs through `h`.
+fn run_history(h: &mut History, ncalls: usize, tags: &mut Tags, out: &mut Out, stats_prefix: &str) {
+    let nctx = h.w.ctxs.len();
+    for c in 0..nctx {
+        let o = observe_ctx(&h.w.ctxs[c], tags, &h.w.orphans[c], &POOL);
+        h.last_obs.push(o);
+    }
+    let small = small_types();
+    let huge = huge_types();
+    let invalid = invalid_types();
+    for step_no in 0..ncalls {
+        let c = h.rng.below(nctx as u64) as usize; // receiver context
+        let ctx = h.w.ctxs[c].clone();
+        let bad = h.rng.chance(2, 5); // this call is generated from the unconstrained pools
+        let closing = h.closing_at.map_or(false, |k| step_no >= k) && !bad;
+        // in the closing phase: outputs, graph finalization, main graph, context finalization
+        let (kind, want): (u64, Option<GraphH>) = if closing && h.rng.chance(3, 4) {
+            let no_out: Vec<GraphH> = h.graphs.iter().filter(|g| g.c == c && g.graph.get_output_node().is_err() && g.graph.get_num_nodes() > 0).cloned().collect();
+            let unfin: Vec<GraphH> = h.graphs.iter().filter(|g| g.c == c && g.graph.get_output_node().is_ok() && !h.finalized.contains(&(c, g.graph.get_id()))).cloned().collect();
+            let empty: Vec<GraphH> = h.graphs.iter().filter(|g| g.c == c && g.graph.get_num_nodes() == 0).cloned().collect();
+            let fin: Vec<GraphH> = h.graphs.iter().filter(|g| g.c == c && h.finalized.contains(&(c, g.graph.get_id()))).cloned().collect();
+            if !empty.is_empty() { (20, None) }
+            else if !no_out.is_empty() { (56, Some(no_out[h.rng.below(no_out.len() as u64) as usize].clone())) }
+            else if !unfin.is_empty() { (63, Some(unfin[h.rng.below(unfin.len() as u64) as usize].clone())) }
+            else if ctx.get_main_graph().is_err() && !fin.is_empty() { (69, Some(fin[h.rng.below(fin.len() as u64) as usize].clone())) }
+            else { (72, None) }
+        } else { (h.rng.below(100), None) };
+        // (kind name, Gallina call, Gallina outcome, ok?)
+        let (kname, call, outc, ok): (&str, String, String, bool);
+        if kind < 10 || h.graphs.iter().all(|g| g.c != c) {
+            let r = ctx.create_graph();
+            kname = "create_graph";
+            call = "CreateGraph".to_string();
+            match r {
+                Ok(g) => {
+                    outc = format!("(OOk (RId {}))", g.get_id());
+                    ok = true;
+                    h.graphs.push(GraphH { graph: g, c });
+                }
+                Err(e) => {
+                    outc = format!("(OErr {})", classify("create_graph", &e.to_string()));
+                    ok = false;
+                }
+            }
+        } else if kind < 55 {
+            // ---- add_node / add_node_with_type -------------------------------------------
+            kname = "add_node";
+            let g = h.pick_graph(c, true).unwrap();
+            let gid = g.graph.get_id();
+            let sub = h.rng.below(100);
+            let mut deps: Vec<NodeH> = vec![];
+            let mut gdeps: Vec<GraphH> = vec![];
+            let op: Operation;
+            let pick_t = |rng: &mut Rng| -> Type {
+                let r = rng.below(100);
+                if r < 80 { small[rng.below(small.len() as u64) as usize].clone() }
+                else if r < 92 { huge[rng.below(huge.len() as u64) as usize].clone() }
+                else { invalid[rng.below(invalid.len() as u64) as usize].clone() }
+            };
+            if sub < 35 || h.nodes.iter().all(|n| n.c != c || n.node.get_graph().get_id() != gid) {
+                let t = pick_t(&mut h.rng);
+                op = match h.rng.below(5) {
+                    0 | 1 | 2 => Operation::Input(t),
+                    3 => {
+                        let v = if size_estimate(&t).map_or(false, |s| s < 100000) { Value::zero_of_type(t.clone()) } else { Value::from_bytes(vec![0]) };
+                        Operation::Constant(t, v)
+                    }
+                    _ => Operation::Zeros(t),
+                };
+                if bad && h.rng.chance(1, 3) {
+                    if let Some(d) = h.pick_node(c, Some(gid), false) { deps.push(d); }
+                }
+            } else if sub < 85 {
+                let k = h.rng.below(6);
+                let arity = match k { 0 | 1 => 2, 2 | 3 => 1, _ => h.rng.below(4) as usize };
+                op = match k {
+                    0 => Operation::Add,
+                    1 => Operation::Multiply,
+                    2 => Operation::NOP,
+                    3 => if h.rng.chance(1, 2) { Operation::A2B } else { Operation::TupleGet(h.rng.below(3)) },
+                    _ => Operation::CreateTuple,
+                };
+                let n = if bad && h.rng.chance(1, 4) { arity + 1 } else { arity };
+                for _ in 0..n {
+                    let v = !bad || h.rng.chance(2, 3);
+                    if let Some(d) = h.pick_node(c, Some(gid), v) { deps.push(d); }
+                }
+            } else {
+                // Call / Iterate on another graph
+                op = if h.rng.chance(4, 5) { Operation::Call } else { Operation::Iterate };
+                let v = h.rng.chance(1, 2);
+                let callee = if bad { h.pick_graph(c, v) } else {
+                    let older: Vec<GraphH> = h.graphs.iter().filter(|x| x.c == c && x.graph.get_id() < gid && x.graph.get_output_node().is_ok()).cloned().collect();
+                    if older.is_empty() { h.pick_graph(c, true) } else { Some(older[h.rng.below(older.len() as u64) as usize].clone()) }
+                };
+                if let Some(cg) = callee {
+                    // arguments: try to match the callee's input types
+                    let want: Vec<Type> = cg.graph.get_nodes().iter().filter_map(|n| if let Operation::Input(t) = n.get_operation() { Some(t) } else { None }).collect();
+                    for t in want {
+                        let cands: Vec<NodeH> = h.nodes.iter().filter(|n| n.c == c && n.node.get_graph().get_id() == gid && !h.w.orphans[c].contains(&n.node.get_global_id()) && n.node.get_type().ok().as_ref() == Some(&t)).cloned().collect();
+                        if !cands.is_empty() && !(bad && h.rng.chance(1, 3)) {
+                            deps.push(cands[h.rng.below(cands.len() as u64) as usize].clone());
+                        } else if let Some(d) = h.pick_node(c, Some(gid), true) {
+                            deps.push(d);
+                        }
+                    }
+                    gdeps.push(cg);
+                    if bad && h.rng.chance(1, 5) {
+                        if let Some(x) = h.pick_graph(c, false) { gdeps.push(x); }
+                    }
+                }
+            }
+            // supplied type (add_node_with_type): mostly the right one is not known, so use a pool type
+            let supplied: Option<Type> = if !h.no_supplied && h.rng.chance(1, 6) {
+                Some(if h.rng.chance(1, 3) { invalid[h.rng.below(invalid.len() as u64) as usize].clone() } else { pick_t(&mut h.rng) })
+            } else { None };
+            let before = g.graph.get_num_nodes();
+            let dn: Vec<Node> = deps.iter().map(|d| d.node.clone()).collect();
+            let dg: Vec<Graph> = gdeps.iter().map(|d| d.graph.clone()).collect();
+            let r = match &supplied {
+                None => g.graph.add_node(dn, dg, op.clone()),
+                Some(t) => g.graph.add_node_with_type(dn, dg, op.clone(), t.clone()),
+            };
+            let after = g.graph.get_num_nodes();
+            // the oracle answers handed to the model
+            let in_ty: Option<Type> = match &op { Operation::Input(t) => Some(t.clone()), Operation::Constant(t, _) => Some(t.clone()), _ => None };
+            let a_in = match &in_ty {
+                None => "None".to_string(),
+                Some(t) => format!("(Some {})", opt(&(if t.is_valid() { size_estimate(t) } else { None }), |x| x.to_string())),
+            };
+            let (a_ty, a_sz);
+            match &r {
+                Ok(n) => {
+                    let t = n.get_type().unwrap();
+                    a_ty = format!("(Some {})", tags.ty(&t));
+                    a_sz = opt(&size_estimate(&t), |x| x.to_string());
+                    outc = format!("(OOk (RId {}))", n.get_id());
+                    ok = true;
+                    h.nodes.push(NodeH { node: n.clone(), c });
+                    out.stat(&format!("{}addnode:Ok", stats_prefix));
+                }
+                Err(e) => {
+                    let mut code = classify("add_node", &e.to_string());
+                    if e.to_string().contains("overflow!") {
+                        // checked arithmetic fails either inside type inference (13) or in
+                        // try_update_total_size (16).  Inference did not run when a type was supplied,
+                        // and cannot overflow when the Input/Constant type has a size estimate.
+                        code = if supplied.is_some() || in_ty.as_ref().map_or(false, |t| size_estimate(t).is_some()) { 16 } else { 13 };
+                    }
+                    out.stat(&format!("{}addnode:Err{}", stats_prefix, code));
+                    // type checker's answer as far as Rust's behaviour reveals it
+                    let known_t: Option<Type> = supplied.clone().or(in_ty.clone());
+                    if code == 13 {
+                        a_ty = "None".to_string();
+                        a_sz = "None".to_string();
+                    } else {
+                        a_ty = "(Some 0)".to_string();
+                        a_sz = match (&known_t, code) {
+                            (Some(t), _) => opt(&size_estimate(t), |x| x.to_string()),
+                            (None, 14) => "None".to_string(),
+                            _ => "(Some 0)".to_string(),
+                        };
+                    }
+                    outc = format!("(OErr {})", code);
+                    ok = false;
+                    if after != before {
+                        // a failed call left a node behind
+                        h.w.orphans[c].insert((gid, before));
+                        h.viol.push(("err-leaves-node-behind".into(), format!("add_node_with_type returned Err({}) but get_num_nodes went {} -> {}", e, before, after)));
+                        let left = g.graph.get_nodes()[before as usize].clone();
+                        h.nodes.push(NodeH { node: left, c });
+                    }
+                }
+            }
+            let sup = match &supplied { None => "None".to_string(), Some(t) => format!("(Some ({}, {}))", b(t.is_valid()), tags.ty(t)) };
+            call = format!(
+                "AddNode {} {} {} {} {} (mkAns {} {} {})",
+                gid, tags.op(&op), lst(&deps, |d| nh(d, c)), lst(&gdeps, |d| gh(d, c)), sup, a_ty, a_sz, a_in
+            );
+        } else if kind < 62 {
+            kname = "set_output";
+            let g = want.clone().unwrap_or_else(|| h.pick_graph(c, true).unwrap());
+            let n = h.pick_node(c, Some(g.graph.get_id()), !bad);
+            match n {
+                None => continue,
+                Some(n) => {
+                    let r = g.graph.set_output_node(n.node.clone());
+                    let (o, k) = outcome_unit(kname, &r);
+                    outc = o; ok = k;
+                    call = format!("SetOutput {} {}", g.graph.get_id(), nh(&n, c));
+                }
+            }
+        } else if kind < 68 {
+            kname = "finalize_graph";
+            let g = want.clone().unwrap_or_else(|| h.pick_graph(c, true).unwrap());
+            let r = g.graph.finalize().map(|_| ());
+            if r.is_ok() { h.finalized.insert((c, g.graph.get_id())); }
+            let (o, k) = outcome_unit(kname, &r);
+            outc = o; ok = k;
+            call = format!("FinalizeGraph {}", g.graph.get_id());
+        } else if kind < 72 {
+            kname = "set_main";
+            let g = want.clone().unwrap_or_else(|| h.pick_graph(c, !bad).unwrap());
+            let r = ctx.set_main_graph(g.graph.clone()).map(|_| ());
+            let (o, k) = outcome_unit(kname, &r);
+            outc = o; ok = k;
+            call = format!("SetMain {}", gh(&g, c));
+        } else if kind < 74 {
+            kname = "finalize_ctx";
+            let r = ctx.finalize().map(|_| ());
+            let (o, k) = outcome_unit(kname, &r);
+            outc = o; ok = k;
+            call = "FinalizeCtx".to_string();
+        } else if kind < 79 {
+            kname = "set_graph_name";
+            let g = h.pick_graph(c, !bad).unwrap();
+            let nm = h.name();
+            let r = ctx.set_graph_name(g.graph.clone(), &nm).map(|_| ());
+            let (o, k) = outcome_unit(kname, &r);
+            outc = o; ok = k;
+            call = format!("SetGraphName {} {}", gh(&g, c), coq_string(&nm));
+        } else if kind < 87 {
+            kname = "set_node_name";
+            let n = match h.pick_node(c, None, !bad) { Some(n) => n, None => continue };
+            let nm = h.name();
+            let r = ctx.set_node_name(n.node.clone(), &nm).map(|_| ());
+            let (o, k) = outcome_unit(kname, &r);
+            outc = o; ok = k;
+            call = format!("SetNodeName {} {}", nh(&n, c), coq_string(&nm));
+        } else if kind < 91 {
+            kname = "node_annot";
+            let n = match h.pick_node(c, None, true) { Some(n) => n, None => continue };
+            let a = random_node_annot(&mut h.rng);
+            let r = n.node.add_annotation(a.clone()).map(|_| ());
+            let (o, k) = outcome_unit(kname, &r);
+            outc = o; ok = k;
+            call = format!("AddNodeAnnot {} {}", nh(&n, c), node_annot_code(&a));
+        } else if kind < 93 {
+            kname = "graph_annot";
+            let g = h.pick_graph(c, true).unwrap();
+            let a = random_graph_annot(&mut h.rng);
+            let r = g.graph.add_annotation(a.clone()).map(|_| ());
+            let (o, k) = outcome_unit(kname, &r);
+            outc = o; ok = k;
+            call = format!("AddGraphAnnot {} {}", gh(&g, c), graph_annot_code(&a));
+        } else if kind < 95 {
+            kname = "get_graph_name";
+            let g = h.pick_graph(c, !bad).unwrap();
+            let r = ctx.get_graph_name(g.graph.clone());
+            call = format!("GetGraphName {}", gh(&g, c));
+            match r {
+                Ok(s) => { outc = format!("(OOk (RName (Some {})))", coq_string(&s)); ok = true; }
+                Err(e) => { outc = format!("(OErr {})", classify(kname, &e.to_string())); ok = false; }
+            }
+        } else if kind < 97 {
+            kname = "get_node_name";
+            let n = match h.pick_node(c, None, !bad) { Some(n) => n, None => continue };
+            let r = ctx.get_node_name(n.node.clone());
+            call = format!("GetNodeName {}", nh(&n, c));
+            match r {
+                Ok(s) => { outc = format!("(OOk (RName {}))", opt(&s, |x| coq_string(x))); ok = true; }
+                Err(e) => { outc = format!("(OErr {})", classify(kname, &e.to_string())); ok = false; }
+            }
+        } else if kind < 98 {
+            kname = "retrieve_graph";
+            let nm = h.name();
+            let r = ctx.retrieve_graph(&nm);
+            call = format!("RetrieveGraph {}", coq_string(&nm));
+            match r {
+                Ok(g) => { outc = format!("(OOk (RId {}))", g.get_id()); ok = true; }
+                Err(e) => { outc = format!("(OErr {})", classify(kname, &e.to_string())); ok = false; }
+            }
+        } else {
+            kname = "retrieve_node";
+            let g = h.pick_graph(c, !bad).unwrap();
+            let nm = h.name();
+            let r = ctx.retrieve_node(g.graph.clone(), &nm);
+            call = format!("RetrieveNode {} {}", gh(&g, c), coq_string(&nm));
+            match r {
+                Ok(n) => { outc = format!("(OOk (RId {}))", n.get_id()); ok = true; }
+                Err(e) => { outc = format!("(OErr {})", classify(kname, &e.to_string())); ok = false; }
+            }
+        }
+        out.stat(&format!("{}call:{}:{}", stats_prefix, kname, if ok { "Ok" } else { "Err" }));
+        if !ok {
+            h.rejected += 1;
+        }
+        // ---- observation + native oracle ------------------------------------------------
+        for k in 0..nctx {
+            let o = observe_ctx(&h.w.ctxs[k], tags, &h.w.orphans[k], &POOL);
+            if k == c {
+                if !ok && o != h.last_obs[k] {
+                    h.viol.push(("err-changes-context".into(), format!("{} returned {} but the observation of its context changed", call, outc)));
+                } else {
+                    out.oracle_ok();
+                }
+                h.calls[k].push(call.clone());
+                // an unchanged observation is printed as None (the model does the same comparison)
+                let shown = if o == h.last_obs[k] { "None".to_string() } else { format!("(Some {})", o.delta(&h.last_obs[k])) };
+                h.steps[k].push(format!("({}, {})", outc, shown));
+            } else if o != h.last_obs[k] {
+                h.viol.push(("call-changes-other-context".into(), format!("{} on context {} changed context {}", call, c, k)));
+            }
+            h.last_obs[k] = o;
+            match check_invariants(&h.w.ctxs[k], &h.w.orphans[k]) {
+                Ok(()) => out.oracle_ok(),
+                Err(m) => h.viol.push(("invariant-broken".into(), format!("after {}: {}", call, m))),
+            }
+        }
+    }
+}
+
+/// A random history for other properties (C12): returns the contexts and, per context, the
+/// Gallina call list that rebuilds its model state.
+pub fn random_history(rng: &mut Rng, ncalls: usize, nctx: usize, closing: bool, tags: &mut Tags, out: &mut Out, stats_prefix: &str) -> (Vec<Context>, Vec<Vec<String>>) {
+    let mut h = History {
+        rng: rng.fork(),
+        w: World { ctxs: (0..nctx).map(|_| create_context().unwrap()).collect(), orphans: vec![HashSet::new(); nctx] },
+        graphs: vec![],
+        nodes: vec![],
+        calls: vec![vec![]; nctx],
+        steps: vec![vec![]; nctx],
+        last_obs: vec![],
+        rejected: 0,
+        viol: vec![],
+        closing_at: if closing { Some(ncalls * 6 / 10) } else { None },
+        no_supplied: true,
+        finalized: HashSet::new(),
+    };
+    run_history(&mut h, ncalls, tags, out, stats_prefix);
+    (h.w.ctxs.clone(), h.calls.clone())
+}
+
+pub fn run(tier: &str, seed: u64, out: &mut Out) {
+    let mut rng = Rng::new(seed ^ 0xC11);
+    let nhist = match tier { "thorough" => 1500, "search" => 4000, _ => 90 };
+    let mut tags = Tags::new();
+    for hi in 0..nhist {
+        let nctx = if rng.chance(1, 3) { 2 } else { 1 };
+        let quick = tier == "quick";
+        let ncalls = match rng.below(40) {
+            0 if !quick || hi % 50 == 7 => 200,
+            1 | 2 | 3 => if quick { 50 + rng.below(40) as usize } else { 80 + rng.below(60) as usize },
+            4..=16 => if quick { 20 + rng.below(30) as usize } else { 30 + rng.below(40) as usize },
+            _ => 5 + rng.below(25) as usize,
+        };
+        let mut h = History {
+            rng: rng.fork(),
+            w: World { ctxs: (0..nctx).map(|_| create_context().unwrap()).collect(), orphans: vec![HashSet::new(); nctx] },
+            graphs: vec![],
+            nodes: vec![],
+            calls: vec![vec![]; nctx],
+            steps: vec![vec![]; nctx],
+            last_obs: vec![],
+            rejected: 0,
+            viol: vec![],
+            closing_at: if rng.chance(2, 5) { Some(ncalls * (3 + rng.below(5) as usize) / 10) } else { None },
+            no_supplied: false,
+            finalized: HashSet::new(),
+        };
+        run_history(&mut h, ncalls, &mut tags, out, "");
+        out.stat(&format!("contexts:{}", nctx));
+        out.stat(&format!("history_len:{}", match ncalls { 0..=29 => "5-29", 30..=79 => "30-79", 80..=199 => "80-199", _ => "200" }));
+        let total_nodes: u64 = h.w.ctxs.iter().map(|c| c.get_graphs().iter().map(|g| g.get_num_nodes()).sum::<u64>()).sum();
+        out.stat(&format!("final_nodes:{}", match total_nodes { 0..=4 => "0-4", 5..=19 => "5-19", 20..=49 => "20-49", _ => "50+" }));
+        out.stat_n("rejected_calls", h.rejected as u64);
+        let input = json!({"history": hi, "contexts": nctx, "calls": ncalls, "rejected": h.rejected,
+            "first_calls": h.calls[0].iter().take(8).collect::<Vec<_>>() });
+        if tier != "search" {
+            for c in 0..nctx {
+                if h.calls[c].is_empty() {
+                    continue;
+                }
+                out.case(
+                    "history",
+                    format!("(trace {} init [{}])%N", lst(&POOL, |s| coq_string(s)), h.calls[c].join("; ")),
+                    format!("[{}]%N", h.steps[c].join("; ")),
+                    input.clone(),
+                    h.rejected > 0,
+                );
+            }
+        }
+        let mut seen = HashSet::new();
+        for (class, detail) in h.viol.iter() {
+            if seen.insert(class.clone()) {
+                out.violation(class, json!({"history": hi, "seed": seed, "contexts": nctx, "calls": h.calls}), detail.clone());
+            }
+        }
+    }
+    out.stat_n("distinct_ops", tags.ops.len() as u64);
+    out.stat_n("distinct_types", tags.tys.len() as u64);
+}
